@@ -37,6 +37,20 @@ let run (path : string) =
         (* C05 on the implementation's own answers: the returned ID reads back as the name *)
         if res <> "-" && back <> name then begin
           incr viol; Printf.printf "FAIL C05 id-reads-back-as-name :: %s\n" line end
+      | ["O"; files; opts; res] ->
+        (* the mapping a tool builds: file, options merged over it (tool_cfg) *)
+        incr total; note line res;
+        let canon (p : predef) =
+          List.sort compare (List.map (fun (c, m) -> (hex_of_bytes c, List.sort compare (List.map (fun (i, n) -> (int_of_n i, hex_of_bytes n)) (nmap_to_list m)))) p) in
+        let optl = if opts = "-" then [] else List.map bytes_of_hex (split_on '|' opts) in
+        let m = tool_cfg TGateway (FileOk (cfg_of files)) optl in
+        let same = (match m with
+            | None -> res = "ERR"
+            | Some p -> res <> "ERR" && canon p = canon (cfg_of res)) in
+        if not same then begin
+          incr mism; incr viol;
+          Printf.printf "MISMATCH tool mapping model=%s :: %s\n" (match m with None -> "ERR" | Some _ -> "ok") line;
+          Printf.printf "FAIL C30 options-over-file-mapping :: %s\n" line end
       | "X" :: _ -> incr mism; Printf.printf "MISMATCH driver-error :: %s\n" line
       | _ -> ())
     lines;
